@@ -55,6 +55,8 @@ def run(ctx, rep):
     rep.rule("R12.6", "the factorisation reused for updates/resets belongs to the current interpolation set: the cache is keyed by exact equality with a copy of the points")
     from .c11 import r114
     r114(ctx, rep, rule="R12.6")
+    rep.rule("R12.7", "values, indices and points reach the model-maintenance functions through the right parameters (no swapped arguments)")
+    common.check_swapped_args(ctx, rep, "R12.7", lambda g: g.cls is not None and g.cls.name in ("Models", "Quadratic", "Interpolation"))
 
 
 # ---------------------------------------------------------------------------
